@@ -37,6 +37,14 @@ func watch(ch chan []tls.Certificate, refresh time.Duration, path string, loadFn
 			continue
 		}
 
+		// a source which has nothing at the moment (e.g. while the files are
+		// being replaced) does not take away the certificates in use
+		if len(certs) == 0 {
+			log.Printf("[WARN] cert: No certificates found in %s", path)
+			time.Sleep(refresh)
+			continue
+		}
+
 		ch <- certs
 		last = next
 
